@@ -284,8 +284,17 @@ root by `compile_places_nested`, and at the position this very theorem gives for
 Proved from `read_write_args` (C04) applied to the owned value whose offset scalars are the offsets the packer stored
 (`patchObj`), and the positional read-back of C05 + the writer bridge.  Hypotheses: the hand-written `compute_*` fields do
 not depend on offset VALUES (`hext`); the pair's named count/length assumptions hold for the value whatever its offset
-scalars are (`hassume`; vacuous for the 203 unconditional pairs); the table is below 4 GiB. -/
-theorem nested_read_write (ext : Ext) (as : List Assume) (ws : List WF) (rs : List RF) (o : Field.Obj)
+scalars are (`hassume`; vacuous for the 203 unconditional pairs); the table is below 4 GiB.
+
+PARTIAL in this: `Slots` declares offset fields that are SCALAR statements (`self.f.write_into(writer)` of an
+`OffsetMarker` / `NullableOffsetMarker` field).  The full statement `nested_read_write` also lets an element `(i, c)` of
+an array field be an offset (`Vec<OffsetMarker<T>>`, records with offset columns: LookupList, ScriptList, Coverage-offset
+arrays …): `kids : field id → row → column → Option child`, `emitN` emits `null` / `link` for those cells inside the
+array's bytes, and the conclusion gives `TableAt out (hd + offset) c 0` for every non-null cell.  Missing for it: the
+cell-wise analogue of `emitAt_emit` through `emitRecs` / `emitRecsV`.  For such tables the offsets stay scalars-in-arrays
+as in Props/C04.lean, and what is proved about them is the tree-level `compile_reads_back_nested` / `compile_places_nested`
+(which hold for every value tree, arrays of offsets included). -/
+theorem nested_read_write_partial (ext : Ext) (as : List Assume) (ws : List WF) (rs : List RF) (o : Field.Obj)
     (slots : Slots) (kids : Kids) (args : View) (out : List Nat) (hd : Nat) (fs : Fields) (vN : View)
     (hc : compatU as ws rs = true) (hs : slotOK slots ws = true)
     (he : emitN ext o slots kids ws args = some (fs, vN))
@@ -315,8 +324,8 @@ theorem nested_read_write (ext : Ext) (as : List Assume) (ws : List WF) (rs : Li
   rw [List.take_append_drop, List.drop_drop] at hrw
   exact ⟨vA, hrw, hag, hkids⟩
 
-/-- the root table of a compiled value: `nested_read_write` at offset 0 of what `dump_table` returned -/
-theorem nested_read_write_root (ext : Ext) (as : List Assume) (ws : List WF) (rs : List RF) (o : Field.Obj)
+/-- the root table of a compiled value: `nested_read_write_partial` at offset 0 of what `dump_table` returned -/
+theorem nested_read_write_root_partial (ext : Ext) (as : List Assume) (ws : List WF) (rs : List RF) (o : Field.Obj)
     (slots : Slots) (kids : Kids) (args : View) (ty : TType) (fs : Fields) (vN : View)
     (ids : Nat → Nat) (hinj : Function.Injective ids) (fresh : List Nat) (hnd : fresh.Nodup) (hfr : ∀ j, ids j ∉ fresh)
     (out : List Nat)
@@ -337,7 +346,7 @@ theorem nested_read_write_root (ext : Ext) (as : List Assume) (ws : List WF) (rs
     simp only [] at this
     rw [flat_simple fs 0 hsimple] at this
     exact this
-  have := nested_read_write ext as ws rs o slots kids args out 0 fs vN hc hs he hext hassume hat hsmall
+  have := nested_read_write_partial ext as ws rs o slots kids args out 0 fs vN hc hs he hext hassume hat hsmall
     (by intro hu; rw [Nat.zero_add]; exact hr hu)
   simpa using this
 
@@ -354,7 +363,7 @@ theorem gdef_nested_read_write (ext : Ext) (o : Field.Obj) (kids : Kids) (out : 
     (hat : TableAt out hd fs 0) (hsmall : lenN fs < U32) :
     ∃ view', parse gdef_Gdef_r [] (out.drop hd) = some (view', out.drop (hd + lenN fs)) ∧
       AgreeOff gdefSlots vN view' ∧ KidsAt gdefSlots kids out hd gdef_Gdef_w view' :=
-  nested_read_write ext [] _ _ o gdefSlots kids [] out hd fs vN gdef_Gdef_compat (by decide) he hext
+  nested_read_write_partial ext [] _ _ o gdefSlots kids [] out hd fs vN gdef_Gdef_compat (by decide) he hext
     (fun _ _ _ _ x hx => by cases hx) hat hsmall (fun h => absurd h (by decide))
 
 /-- non-vacuity: a GDEF 1.0 with a glyph class def `[0,1,0,5,0,0]` and a lig caret list `[0,2,0,0]`, the other two
@@ -376,13 +385,13 @@ example :
           [0, 1, 0, 5, 0, 0, 0, 2, 0, 0]) := by
   refine ⟨by decide +kernel, by decide +kernel, by decide +kernel⟩
 
-/-- non-vacuity of the theorem itself: every hypothesis of `nested_read_write_root` holds for that GDEF, so the theorem
+/-- non-vacuity of the theorem itself: every hypothesis of `nested_read_write_root_partial` holds for that GDEF, so the theorem
 yields the read-back (here only its shape is kept) -/
 example :
     ∃ view', parse FontVerif.Gen.WriteProgs.gdef_Gdef_r []
         [0, 1, 0, 0, 0, 12, 0, 0, 0, 18, 0, 0, 0, 1, 0, 5, 0, 0, 0, 2, 0, 0] = some (view',
           List.drop 12 [0, 1, 0, 0, 0, 12, 0, 0, 0, 18, 0, 0, 0, 1, 0, 5, 0, 0, 0, 2, 0, 0]) := by
-  obtain ⟨view', h, _, _⟩ := nested_read_write_root (fun _ _ => 65536) [] FontVerif.Gen.WriteProgs.gdef_Gdef_w
+  obtain ⟨view', h, _, _⟩ := nested_read_write_root_partial (fun _ _ => 65536) [] FontVerif.Gen.WriteProgs.gdef_Gdef_w
     FontVerif.Gen.WriteProgs.gdef_Gdef_r [] gdefSlots
     (fun f => if f = 1 then some (.other, .bytes [0, 1, 0, 5, 0, 0] .nil)
               else if f = 3 then some (.other, .bytes [0, 2, 0, 0] .nil) else none)
